@@ -313,6 +313,40 @@ func TestC06InboundExact(t *testing.T) {
 			}
 			return v
 		}
+		// Sometimes an earlier connection came first: it delivered packets
+		// with a body and then failed inside ReadSlices. Nothing of it may
+		// leak into the reading of the next connection (C06 is judged on
+		// that one: results and connections are counted from here).
+		prelude := rapid.IntRange(0, 3).Draw(rt, "earlierConnectionFailed") == 0
+		resBase, connBase := 0, 0
+		if prelude {
+			n := rapid.IntRange(1, 3).Draw(rt, "preludePackets")
+			var pre []byte
+			for i := 0; i < n; i++ {
+				id := uint16(0x6100 + i)
+				codes := make([]byte, rapid.IntRange(1, 40).Draw(rt, "preludeBody"))
+				pre = append(pre, refmqtt.Encode(&refmqtt.Packet{Type: refmqtt.SUBACK, ID: id, Codes: codes})...)
+			}
+			kind := rapid.SampledFrom([]int{sim.REOF, sim.RReset}).Draw(rt, "preludeEnd")
+			// … optionally inside one more packet
+			tail := []byte{0x90, 0x20, 0x61, 0x10}[:rapid.IntRange(0, 4).Draw(rt, "preludeTail")]
+			pre = append(pre, tail...)
+			h.Act("an earlier connection delivers %d SUBACKs for nobody (%d bytes), then %s", n, len(pre), rfaultNames[kind])
+			h.WithLock(func() {
+				h.NextConnOpts = func(c *sim.Conn) {
+					h.NextConnOpts = nil
+					c.Connack.Extra = pre
+					c.ArmReadLocked(sim.RFault{Off: 4 + len(pre), Kind: kind})
+				}
+			})
+			h.App.Step()
+			h.MustPoll("ReadSlices returning from the earlier connection", func() bool { return !h.App.InCall() })
+			if last, ok := h.App.Last(); !ok || last.Err == nil || last.Big {
+				h.Failf("the earlier connection ended with %s, yet ReadSlices returned %v", rfaultNames[kind], last)
+			}
+			resBase, connBase = h.App.NResults(), len(h.AllConns())
+			h.label("after-an-earlier-connection-which-failed")
+		}
 		off := 4 // inbound offset of the stream (after CONNACK)
 		h.WithLock(func() {
 			h.NextConnOpts = func(c *sim.Conn) {
@@ -330,7 +364,7 @@ func TestC06InboundExact(t *testing.T) {
 		h.SettleReader("connect")
 		c := h.Current()
 		if c == nil || !c.Accepted() {
-			h.Failf("no connection")
+			h.Failf("after the connect the client holds no accepted connection: the handshake failed or the connection was given up while the stream was read")
 		}
 		if !coalesce {
 			c.Send(all)
@@ -355,7 +389,7 @@ func TestC06InboundExact(t *testing.T) {
 		}
 		// compare the returns with the PUBLISH packets sent
 		var results []sim.AppResult
-		for i := 0; i < h.App.NResults(); i++ {
+		for i := resBase; i < h.App.NResults(); i++ {
 			results = append(results, h.App.Result(i))
 		}
 		if len(results) != len(want) {
@@ -418,8 +452,8 @@ func TestC06InboundExact(t *testing.T) {
 		if !bytes.Equal(gotOut, wantOut) {
 			h.Failf("acknowledgements differ: got % x, want % x", head(gotOut, 80), head(wantOut, 80))
 		}
-		if len(h.AllConns()) != 1 {
-			h.Failf("the client reconnected %d times on a well-formed stream", len(h.AllConns())-1)
+		if len(h.AllConns()) != connBase+1 {
+			h.Failf("the client reconnected %d times on a well-formed stream", len(h.AllConns())-connBase-1)
 		}
 		noPanics(h)
 		if bigN > 0 {
